@@ -120,17 +120,29 @@ Definition lf_is_token_attr (n : bytes) : bool := lf_beq n lf_rt || lf_beq n lf_
 (* a trailing '*' asks for prefix matching and is not part of the pattern *)
 Definition lf_strip_star (p : bytes) : bytes * bool :=
   match rev p with
-  | 42 :: r => (rev r, true)
-  | _ => (p, false)
+  | c :: r => if c =? 42 then (rev r, true) else (p, false)
+  | [] => (p, false)
   end.
 
 (* one leading '/' of an href pattern is not part of the path *)
 Definition lf_strip_slash (p : bytes) : bytes :=
-  match p with 47 :: tl => tl | _ => p end.
+  match p with c :: tl => if c =? 47 then tl else p | [] => [] end.
 
 (* a value that starts with a double quote is a quoted-string: the text is what is between the quotes *)
 Definition lf_unquote (v : bytes) : bytes :=
-  match v with 34 :: tl => removelast tl | _ => v end.
+  match v with c :: tl => if c =? 34 then removelast tl else v | [] => [] end.
+
+(* a value that starts with a double quote has at least the closing quote behind it (the
+   hypothesis on attribute values under which the filter theorems hold: for a value that
+   consists of one double quote only, the code computes the length 1 - 2 in size_t) *)
+Definition lf_val_ok (v : bytes) : bool :=
+  match v with
+  | c :: tl => if c =? 34 then match tl with [] => false | _ :: _ => true end else true
+  | [] => true
+  end.
+Definition lf_res_ok (r : lf_res) : bool :=
+  forallb (fun a => match lf_avalue a with Some v => lf_val_ok v | None => true end) (lf_attrs r).
+Definition lf_table_ok (rs : list lf_res) : bool := forallb lf_res_ok rs.
 
 (* first attribute with that name (link_attr order) *)
 Fixpoint lf_find_attr (l : list lf_attr) (n : bytes) : option lf_attr :=
